@@ -273,7 +273,8 @@ OBLIGATIONS = [
                pre=_PRE + ["0 <= nargs <= 2"],
                parts={"quick": _kind_parts(2, [dict(t0=1, t1=1, nargs=1)]) + [dict(n=2, k0=1, k1=1, key_i=0), dict(n=2, k0=2, k1=4, key_i=0)]
                                + _kind_parts(3, [dict(t0=1, t1=1, t2=1, nargs=1, key_i=0)], _CHAIN),
-                      "thorough": _kind_parts(3) + _kind_parts(4, [dict(t0=1, t1=1, t2=1, t3=1, nargs=1)], _CHAIN)},
+                      "thorough": _kind_parts(2) + _kind_parts(3, [dict(t0=1, t1=1, t2=1, nargs=1)])
+                                  + _kind_parts(4, [dict(t0=1, t1=1, t2=1, t3=1, nargs=1, key_i=0)], _CHAIN)},
                timeout={"quick": 240, "thorough": 1800},
                symbolic="head-name index per alias, own-argument count per alias, invoked name, number of user arguments"),
     Obligation("spec_build", ob_spec,
@@ -283,8 +284,8 @@ OBLIGATIONS = [
                pre=_PRE + ["0 <= lead < 3"],
                parts={"quick": _kind_parts(2, [dict(in_stack=False, t0=1, t1=1), dict(in_stack=True, t0=1, t1=1, lead=0, key_i=0)])
                                + _kind_parts(3, [dict(t0=1, t1=1, t2=1, in_stack=False, lead=1, key_i=0)], (2, 4)),
-                      "thorough": _kind_parts(2, [dict(in_stack=False), dict(in_stack=True)])
-                                  + _kind_parts(3, [dict(t0=1, t1=1, t2=1, in_stack=False)], _CHAIN)},
+                      "thorough": _kind_parts(2, [dict(in_stack=False), dict(in_stack=True, lead=0)])
+                                  + _kind_parts(3, [dict(t0=1, t1=1, t2=1, in_stack=False, lead=1)], _CHAIN)},
                timeout={"quick": 240, "thorough": 1800},
                symbolic="as alias_get plus leading decorators"),
 ]
